@@ -35,6 +35,7 @@ type Config struct {
 	Trace           bool
 	Env             map[string]string
 	Replay          []NDRec // concrete re-execution of a counterexample
+	Solver          string  // "" (z3) or "cvc5"
 }
 
 func DefaultConfig() *Config {
@@ -313,6 +314,8 @@ func (in *interpreter) freshVar(kind string, w int) value {
 		}
 		p.nd = append(p.nd, NDRec{Kind: kind, Width: w, Value: v})
 		switch w {
+		case SortFloat:
+			return float64frombits(v)
 		case SortBool:
 			return v != 0
 		case 8:
@@ -341,6 +344,7 @@ func ndUint32(fr *frame, args []value) value { return fr.i.freshVar("u32", 32) }
 func ndUint64(fr *frame, args []value) value { return fr.i.freshVar("u64", 64) }
 func ndBool(fr *frame, args []value) value   { return fr.i.freshVar("bool", SortBool) }
 func ndInt(fr *frame, args []value) value    { return fr.i.freshVar("int", 64) }
+func ndFloat64(fr *frame, args []value) value { return fr.i.freshVar("f64", SortFloat) }
 
 func ndBytes(fr *frame, args []value) value {
 	n := fr.concInt(args[0])
@@ -538,7 +542,7 @@ func init() {
 	base := "github.com/facebookincubator/dns/dnsrocks/zzverif/nd."
 	for name, f := range map[string]externalFn{
 		"Byte": ndByte, "Uint16": ndUint16, "Uint32": ndUint32, "Uint64": ndUint64, "Bool": ndBool, "Int": ndInt,
-		"Bytes": ndBytes, "Choice": ndChoice, "Param": ndParam, "Assume": ndAssume, "Assert": ndAssert,
+		"Float64": ndFloat64, "Bytes": ndBytes, "Choice": ndChoice, "Param": ndParam, "Assume": ndAssume, "Assert": ndAssert,
 		"Known": ndKnown, "Observe": ndObserve, "Yield": ndYield, "SchedExplore": ndSchedExplore,
 		"RaceDetect": ndRaceDetect, "Symbolic": ndIsSymbolic,
 	} {
@@ -663,7 +667,7 @@ func (in *interpreter) panicString(v value) string {
 			return s
 		}
 		// error values: try Error()
-		if m := in.prog.LookupMethod(it.t, nil, "Error"); m != nil {
+		if m := in.findMethod(it.t, "Error"); m != nil {
 			var s string
 			func() {
 				defer func() { recover() }()
@@ -869,7 +873,7 @@ func newInterpreter(prog *ssa.Program, harness *ssa.Function, substs map[*ssa.Fu
 		return nil, fmt.Errorf("ssa.Program doesn't include runtime package")
 	}
 	in.runtimeErrorString = runtimePkg.Type("errorString").Object().Type()
-	solver, err := NewSolver(in.ts, cfg.SolverTimeoutMs)
+	solver, err := NewSolver(in.ts, cfg.SolverTimeoutMs, cfg.Solver)
 	if err != nil {
 		return nil, err
 	}
